@@ -7,7 +7,10 @@ from proto import fbits, unbits, run_driver
 
 KERNEL_FILES = ["krige/krigesum.pyx"]
 ASSUMPTIONS = ["scipy's inv/pinv/pinvh return a two-sided inverse of the assembled matrix (hypothesis of the theorems); rounding is not modelled",
-               "covariance values are taken from the real model and handed to the Lean side bit-for-bit; the assembly, right-hand sides, chunk loop, kernel and clipping are compared for equality"]
+               "covariance values are taken from the real model and handed to the Lean side bit-for-bit; the assembly, right-hand sides, chunk loop, kernel and clipping are compared for equality",
+               "data preparation / post-processing: the Lean side evaluates the normaliser with the model of C18 (libm vs numpy: compared within 1e-12 relative); "
+               "the order of the steps is additionally compared bit-for-bit with the real normaliser's values of the detrended data",
+               "histories: a freshly constructed object is built from the model parameters read back through public attributes (C14 covers the setters)"]
 
 
 def layout(kr):
@@ -23,23 +26,46 @@ def model_inputs(kr):
     return C, err, F, E
 
 
+def lam_eff(spec):
+    """smallest |exponent| the normaliser divides by (1 for parameter-free maps / log branches)"""
+    if spec is None or spec["kind"] == "LogNormal":
+        return 1.0
+    v = [abs(spec["lmbda"])] if spec["lmbda"] != 0 else []
+    if spec["kind"] == "YeoJohnson" and spec["lmbda"] != 2:
+        v.append(abs(2 - spec["lmbda"]))
+    return min(v + [1.0])
+
+
+def close_libm(spec, a, b):
+    """model (libm) vs implementation (numpy) values of a normaliser pipeline: same NaN mask, 1e-12 relative"""
+    a, b = np.asarray(a, dtype=float).ravel(), np.asarray(b, dtype=float).ravel()
+    if a.shape != b.shape or not np.array_equal(np.isnan(a), np.isnan(b)):
+        return False
+    ok = ~np.isnan(a)
+    return bool(np.all(np.abs(a[ok] - b[ok]) <= 1e-12 * (1 + np.abs(a[ok]) + np.abs(b[ok])) * (1 + 1 / lam_eff(spec))))
+
+
 def correspondence(ctx, on_data=False):
+    with warnings.catch_warnings():   # out-of-range / dimension warnings of generated inputs are expected
+        warnings.simplefilter("ignore")
+        return _correspondence(ctx, on_data)
+
+
+def _correspondence(ctx, on_data=False):
     rng = np.random.RandomState(ctx.seed + (606 if on_data else 505))
-    N = ctx.scale(60, 600)
+    N = ctx.scale(160, 900)
     ops, meta = [], []
     dist = {}
     samples = []
     for t in range(N):
         cfg = kc.gen_config(rng)
         if on_data:   # C06: targets on (a shuffled subset of) the conditioning points, plus one free point
-            if cfg["variant"] == "ExtDrift":
-                k = cfg["cond_pos"].shape[1]
-                sel = rng.permutation(k)[: max(1, k // 2)]
+            k = cfg["cond_pos"].shape[1]
+            sel = rng.permutation(k)[: max(1, k // 2)]
+            if cfg["ext"] is not None:
                 cfg["pos"] = cfg["cond_pos"][:, sel].copy()
                 cfg["ext"] = (cfg["ext"][0], cfg["ext"][0][:, sel].copy())
             else:
-                k = cfg["cond_pos"].shape[1]
-                sel = rng.permutation(k)[: max(1, k // 2)]
                 cfg["pos"] = np.hstack([cfg["cond_pos"][:, sel], cfg["pos"][:, :1]])
             cfg["chunk"] = None if rng.rand() < 0.5 else int(rng.randint(1, 4))
         cap, store = [], []
@@ -51,17 +77,28 @@ def correspondence(ctx, on_data=False):
                     only_mean = bool(rng.rand() < 0.1)
                     ret_var = bool(rng.rand() < 0.8)
                     out = kc.call(kr, cfg, post_process=False, only_mean=only_mean, return_var=ret_var, store=False)
+                out_post = kc.call(kr, cfg, post_process=True, only_mean=only_mean, return_var=ret_var, store=False)
         except Exception as e:   # configuration the API rejects: not a correspondence case
             dist["rejected:" + type(e).__name__] = dist.get("rejected:" + type(e).__name__, 0) + 1
             continue
         L = layout(kr)
         key = f"{cfg['variant']}/unb={L['unb']}/nf={L['nf']}/ne={L['ne']}/exact={cfg['exact']}/chunk={'all' if cfg['chunk'] is None else 'k'}"
         dist[key] = dist.get(key, 0) + 1
+        mkey = kc.mnt_tag(cfg)
+        dist["mnt:" + mkey] = dist.get("mnt:" + mkey, 0) + 1
         C, err, F, E = model_inputs(kr)
         size = kr.krige_size
         # 1. matrix assembly
         ops.append(dict(op="krige_assemble", **L, C=fbits(C), err=fbits(err), F=fbits(F), E=fbits(E)))
         meta.append(("K", cap[-1], cfg, key))
+        # 1b. post-processing of the raw field: trend + denormalize(mean + raw) on the model side (every call path)
+        sc = kc.pos_scale(cfg)
+        raw = np.ravel(out[0] if isinstance(out, tuple) else out)
+        fpost = np.ravel(out_post[0] if isinstance(out_post, tuple) else out_post)
+        ops.append(dict(op="krige_post", raw=fbits(raw), mean=fbits(kc.eval_spec(cfg["mean"], cfg["pos"], sc)),
+                        trend=fbits(kc.eval_spec(cfg["trend"], cfg["pos"], sc)), **kc.norm_par(cfg["norm"])))
+        var_same = (not isinstance(out, tuple)) or np.array_equal(out[1], out_post[1])
+        meta.append(("POST", (fpost, var_same), cfg, "post/" + mkey))
         if only_mean and kr.drift_no == 0:
             continue   # constant-mean shortcut: no kernel call
         # 2. right-hand sides
@@ -78,16 +115,28 @@ def correspondence(ctx, on_data=False):
         ops.append(dict(op="krige_rhs", **L, m=m, only_mean=only_mean, c=fbits(c), f=fbits(f), e=fbits(e)))
         rhs_real = np.hstack([s[2] for s in store]) if store else np.zeros((size, 0))
         meta.append(("RHS", rhs_real, cfg, key))
-        # 3. chunk loop + kernel + clipping, with the real inverse matrix
-        valn = kr.normalizer.normalize(kr.cond_val - kr.cond_trend)
-        mean = np.broadcast_to(np.asarray(kr.cond_mean, dtype=float), (kr.cond_no,)).copy()
+        # 3. data preparation from the RAW ingredients of the configuration (values, trend and mean evaluated by the
+        #    harness at the conditioning points, normaliser kind + parameters): model of `_krige_cond` end to end
+        trend_c = kc.eval_spec(cfg["trend"], cfg["cond_pos"], sc)
+        mean_c = kc.eval_spec(cfg["mean"], cfg["cond_pos"], sc)
+        cond_real = store[0][3] if store else None
+        ops.append(dict(op="krige_prep", **L, val=fbits(cfg["cond_val"]), trend=fbits(trend_c), mean=fbits(mean_c),
+                        **kc.norm_par(cfg["norm"])))
+        meta.append(("PREP", cond_real, cfg, "prep/" + mkey))
+        # 4. chunk loop + kernel + clipping, with the real inverse matrix; the conditions are formed by the model from
+        #    the real normaliser's values of the detrended data (bit-exact tie of the ORDER detrend-normalise-demean)
+        nz = kc.make_normalizer(cfg["norm"])
+        dtr = cfg["cond_val"] - trend_c
+        with warnings.catch_warnings():
+            warnings.simplefilter("ignore")
+            valn = dtr.copy() if nz is None else np.asarray(nz.normalize(dtr), dtype=float)
         cs = m if cfg["chunk"] is None else cfg["chunk"]
         ops.append(dict(op="krige_call", **L, pnt=m, cs=int(cs), M=fbits(kr._krige_mat), rhs=fbits(rhs_real),
-                        valn=fbits(valn), mean=fbits(mean), sill=fbits([kr.model.sill])[0]))
-        meta.append(("CALL", (out, ret_var and not only_mean, store[0][3] if store else None), cfg, key))
+                        valn=fbits(valn), mean=fbits(mean_c), sill=fbits([kr.model.sill])[0]))
+        meta.append(("CALL", (out, ret_var and not only_mean, cond_real), cfg, key))
         if len(samples) < 4:
             samples.append({"variant": cfg["variant"], "layout": L, "targets": m, "chunk": cfg["chunk"], "exact": cfg["exact"],
-                            "model": repr(kr.model)})
+                            "model": repr(kr.model), "mnt": mkey})
     res = run_driver(ops)
     dis, distinct = [], set()
     for o, (kind, real, cfg, key), r in zip(ops, meta, res):
@@ -100,56 +149,164 @@ def correspondence(ctx, on_data=False):
         elif kind == "RHS":
             lean = np.array([unbits(x) for x in r]).reshape(real.shape) if real.size else real
             ok = np.array_equal(lean, real)
+        elif kind == "PREP":
+            lean = unbits(r)
+            ok = real is None or close_libm(cfg["norm"], lean, real)
+            real = lean if real is None else real
+        elif kind == "POST":
+            lean = unbits(r)
+            ok = close_libm(cfg["norm"], lean, real[0]) and real[1]
+            real = real[0]
         else:
             out, has_var, cond_real = real
             f, v, f2, cond = (unbits(x) for x in r)
             if has_var:
-                ok = np.array_equal(f, np.ravel(out[0])) and np.array_equal(v, np.ravel(out[1]))
+                ok = np.array_equal(f, np.ravel(out[0]), equal_nan=True) and np.array_equal(v, np.ravel(out[1]), equal_nan=True)
             else:
-                ok = np.array_equal(f2, np.ravel(out))
-            ok = ok and (cond_real is None or np.array_equal(cond, cond_real))
+                ok = np.array_equal(f2, np.ravel(out), equal_nan=True)
+            ok = ok and (cond_real is None or np.array_equal(cond, cond_real, equal_nan=True))
             lean = [f.tolist(), v.tolist()]
         distinct.add((kind, key))
         if not ok:
-            dis.append({"what": f"kriging {kind}: model differs from implementation", "variant": cfg["variant"], "key": key,
+            what = {"PREP": "kriging PREP: prepared conditions normalize(cond_val - trend) - mean differ from the model",
+                    "POST": "kriging POST: post-processed field differs from trend + denormalize(mean + raw) of the model"}.get(
+                        kind, f"kriging {kind}: model differs from implementation")
+            dis.append({"what": what, "variant": cfg["variant"], "key": key,
                         "real": np.asarray(real[0] if kind == "CALL" else real, dtype=float).tolist() if kind != "CALL" else [np.asarray(x).tolist() for x in np.atleast_1d(real[0])],
                         "model": np.asarray(lean, dtype=float).tolist() if kind != "CALL" else lean,
-                        "cfg": {k: (v.tolist() if isinstance(v, np.ndarray) else v) for k, v in cfg.items() if k != "ext"}})
-    return {"evaluations": len(ops), "distinct_nontrivial": len(distinct),
-            "rule": "random kriging problems (5 variants, dim 1-3, lat-lon, time, drifts, measurement errors, exact flag, chunk sizes); "
-                    "the assembled matrix (captured through a callable pseudo_inv_type), the right-hand sides and conditions "
-                    "(captured at the kernel entry) and the returned field/variance are compared bit-for-bit with the Lean model; "
-                    "distinct = distinct (stage, variant/layout/options)",
+                        "cfg": kc.describe(cfg)})
+    hist = history_correspondence(ctx, rng, on_data)
+    dis += hist["disagreements"]
+    distinct |= hist["distinct"]
+    for k, v in hist["distribution"].items():
+        dist[k] = dist.get(k, 0) + v
+    return {"evaluations": len(ops) + hist["evaluations"], "distinct_nontrivial": len(distinct),
+            "rule": "random kriging problems (5 variants + the generic Krige class, dim 1-3, lat-lon, time, polynomial and user drifts, "
+                    "external drifts, measurement errors, exact flag, chunk sizes, identity and six non-identity normalizers combined with "
+                    "constant / callable means and trends); the assembled matrix (captured through a callable pseudo_inv_type), the "
+                    "right-hand sides and conditions (captured at the kernel entry) and the returned field/variance are compared "
+                    "bit-for-bit with the Lean model; the prepared conditions and the post-processed field are recomputed by the "
+                    "model from raw values / trend / mean / normaliser parameters (1e-12 relative); histories of model edits, "
+                    "mean/normalizer/trend re-assignments, set_condition forms and calls on one object are compared with freshly "
+                    "constructed objects wherever the Lean protocol model says the two coincide (bit-for-bit); "
+                    "distinct = distinct (stage, variant/layout/options | normalizer/mean/trend kinds | history op pattern)",
             "samples": samples, "disagreements": dis[:8], "distribution": dist}
 
 
+def same_result(r1, r2):
+    """bit-for-bit equality of two History.call results"""
+    if r1[0] != r2[0]:
+        return False
+    if r1[0] == "error":
+        return r1[1] == r2[1]
+    return (np.array_equal(r1[1], r2[1], equal_nan=True)
+            and ((r1[2] is None and r2[2] is None) or (r1[2] is not None and r2[2] is not None and np.array_equal(r1[2], r2[2], equal_nan=True))))
+
+
+def history_correspondence(ctx, rng, on_data=False):
+    """the refresh protocol: histories on one real Krige object vs the Lean protocol model (`krige_history`).
+    Where the model says a call combines exactly what a fresh object combines, the real result must be
+    bit-identical to that of a freshly constructed real object (same model parameters, current conditions)."""
+    H = ctx.scale(50, 400)
+    ops, real, dis, dist, distinct = [], [], [], {}, set()
+    for t in range(H):
+        cfg = kc.gen_config(rng)
+        calls = []
+        zero = str(rng.choice(["exact", "zero-err", "no-nugget"])) if on_data else None
+        if zero:
+            cfg = zero_cfg(cfg, zero)
+        try:
+            for ev in kc.run_history(rng, cfg, segments=int(rng.randint(2, 5)), zero_mode=zero):
+                h = ev["hist"]
+                fr, _ = h.fresh() if ev["synced"] else (None, None)
+                r2 = h.call(ev["tp"], ev["kw"], obj=fr) if fr is not None else None
+                calls.append((ev["res"], r2, ev["synced"], list(h.log), dict(ev["kw"], pos=ev["tp"])))
+        except Exception as e:   # a configuration / operation the API rejects
+            k = "history-rejected:" + type(e).__name__
+            dist[k] = dist.get(k, 0) + 1
+            continue
+        ops.append(dict(op="krige_history", **h.init_ids, ops=h.ops))
+        real.append((cfg, h, calls))
+    res = run_driver(ops)
+    n = 0
+    for (cfg, h, calls), r in zip(real, res):
+        if isinstance(r, dict) and "error" in r:
+            dis.append({"what": "driver error " + r["error"], "kind": "HISTORY"})
+            continue
+        if len(r) != len(calls):
+            dis.append({"what": "kriging HISTORY: number of calls differs between model and harness", "log": h.log})
+            continue
+        for (r1, r2, synced, log, kw), mo in zip(calls, r):
+            n += 1
+            last = [l for l in log if not l.startswith("call")][-2:]
+            pat = "history:" + cfg["variant"] + ":" + ">".join(last) + (":fresh" if mo["eq_fresh"] else ":stale")
+            dist[pat] = dist.get(pat, 0) + 1
+            distinct.add(("HISTORY", pat))
+            if bool(mo["eq_fresh"]) != bool(synced):
+                dis.append({"what": "kriging HISTORY: harness and protocol model disagree about the state", "log": log, "model": mo})
+                continue
+            if not mo["eq_fresh"] or r2 is None:
+                continue
+            if not same_result(r1, r2):
+                dis.append({"what": "kriging HISTORY: call on an object with a history differs from a freshly constructed object "
+                                    "although the protocol model says they coincide",
+                            "variant": cfg["variant"], "log": log, "model": mo,
+                            "call": {k: (v.tolist() if isinstance(v, np.ndarray) else v) for k, v in kw.items()},
+                            "real": [None if x is None else np.asarray(x).tolist() for x in r1[1:]] if r1[0] == "ok" else list(r1),
+                            "fresh": [None if x is None else np.asarray(x).tolist() for x in r2[1:]] if r2[0] == "ok" else list(r2),
+                            "cfg": kc.describe(h.cur)})
+    return dict(evaluations=n, disagreements=dis[:4], distribution=dist, distinct=distinct)
+
+
+def zero_cfg(cfg, mode):
+    """C06: force zero measurement error (exact mode / explicit zero error / nugget-free model)"""
+    cfg = dict(cfg)
+    if mode == "exact":
+        cfg.update(exact=True, cond_err="nugget")
+    elif mode == "zero-err":
+        cfg.update(exact=False, cond_err=0.0)
+    else:
+        cfg.update(exact=False, cond_err="nugget")
+    return cfg
+
+
 # ------------------------------------------------------------------ search on the real API
-def direct_solve(kr, cfg, pos):
-    """independent kriging: solve the system with numpy for each target"""
-    n = kr.cond_no
-    model = kr.model
-    cp_iso = model.isometrize(kr.cond_pos)
-    tp_iso = model.isometrize(np.asarray(pos, dtype=float).reshape(kr.dim, -1))
-    C = model.covariance(cdist(cp_iso.T, cp_iso.T)) + np.diag(np.broadcast_to(np.asarray(kr.cond_err, dtype=float), (n,)))
-    rows = []
-    trows = []
-    m = tp_iso.shape[1]
-    if kr.unbiased:
-        rows.append(np.ones(n)); trows.append(np.ones(m))
-    tpos = np.asarray(pos, dtype=float).reshape(kr.dim, -1)
-    for f in kr.drift_functions:
-        rows.append(np.broadcast_to(f(*kr.cond_pos), (n,))); trows.append(np.broadcast_to(f(*tpos), (m,)))
-    if kr.ext_drift_no:
-        for a, b in zip(cfg["ext"][0], cfg["ext"][1]):
-            rows.append(a); trows.append(b)
-    B = np.array(rows).reshape(len(rows), n)
-    K = np.block([[C, B.T], [B, np.zeros((len(rows), len(rows)))]])
-    cf = model.cov_nugget if kr.exact else model.covariance
-    k = np.vstack([cf(cdist(cp_iso.T, tp_iso.T)), np.array(trows).reshape(len(rows), m)])
-    z = np.concatenate([kr.normalizer.normalize(kr.cond_val - kr.cond_trend) - kr.cond_mean, np.zeros(len(rows))])
-    cond = np.linalg.cond(K)
-    W = np.linalg.solve(K, k)
-    return z @ W, np.maximum(model.sill - np.einsum("ij,ij->j", k, W), 0), cond
+def direct_solve(kr, cfg, pos, ext_t=None, only_mean=False):
+    """independent kriging: solve the system with numpy for each target.  Only the covariance model is taken from
+    the object; the variant, drifts, errors and the data preparation come from the configuration (kc.solve_direct)"""
+    r = kc.solve_direct(cfg, kr.model, pos, ext_t=ext_t, only_mean=only_mean)
+    return r["raw"], r["var"], r["cond"]
+
+
+def post_tol(cfg, raw, pos, tol):
+    """tolerance of the post-processed field implied by `tol` on the raw field (local Lipschitz bound of denormalize)"""
+    a = kc.ref_post(cfg, raw, pos)
+    with np.errstate(all="ignore"):
+        d = np.maximum(np.abs(kc.ref_post(cfg, raw + tol, pos) - a), np.abs(kc.ref_post(cfg, raw - tol, pos) - a))
+    d = np.where(np.isfinite(d), d, 0.0)
+    return 2 * d + 1e-10 * (1 + np.abs(np.where(np.isfinite(a), a, 0.0)))
+
+
+def data_tol(cfg, cond, sel=None):
+    """tolerance in data space for reproducing the conditioning values: 1e-7 relative (scaled by the condition number
+    beyond 1e3) times the local slope of denormalize at the normalised data"""
+    cv = np.asarray(cfg["cond_val"], dtype=float)
+    sc = kc.pos_scale(cfg)
+    y = kc.ref_normalize(cfg.get("norm"), cv - kc.eval_spec(cfg.get("trend"), cfg["cond_pos"], sc))
+    with np.errstate(all="ignore"):
+        slope = np.abs(kc.ref_denormalize(cfg.get("norm"), y + 1e-6) - kc.ref_denormalize(cfg.get("norm"), y - 1e-6)) / 2e-6
+    slope = np.where(np.isfinite(slope), np.maximum(slope, 1.0), 1.0)
+    scale = 1 + np.abs(cv).max() + np.abs(y[np.isfinite(y)]).max(initial=0.0)
+    t = 1e-7 * scale * max(1.0, cond / 1e3) * slope
+    return t if sel is None else t[sel]
+
+
+def close_nan(a, b, atol):
+    a, b = np.asarray(a, dtype=float), np.asarray(b, dtype=float)
+    if a.shape != b.shape or not np.array_equal(np.isnan(a), np.isnan(b)):
+        return False
+    ok = ~np.isnan(a)
+    return bool(np.all(np.abs(a - b)[ok] <= np.broadcast_to(atol, a.shape)[ok]))
 
 
 def probe_d16():
@@ -173,9 +330,16 @@ def probe_d16():
 
 
 def search(ctx, deep=False):
+    with warnings.catch_warnings():   # out-of-range / dimension warnings of generated inputs are expected
+        warnings.simplefilter("ignore")
+        return _search(ctx, deep)
+
+
+def _search(ctx, deep=False):
     rng = np.random.RandomState(ctx.seed + 55)
-    N = ctx.scale(40, 400) * (3 if deep else 1)
+    N = ctx.scale(120, 800) * (3 if deep else 1)
     viol, ev = probe_d16(), 1
+    tags = {}
     for t in range(N):
         cfg = kc.gen_config(rng)
         try:
@@ -183,6 +347,7 @@ def search(ctx, deep=False):
                 warnings.simplefilter("ignore")
                 kr = kc.build(cfg)
                 fld, var = kc.call(kr, cfg, post_process=False, store=False)
+                pfld, pvar = kc.call(kr, cfg, post_process=True, store=False)
         except Exception:
             continue
         ref_f, ref_v, cond = direct_solve(kr, cfg, cfg["pos"])
@@ -190,13 +355,48 @@ def search(ctx, deep=False):
             continue
         tol = 1e-9 * max(cond, 1) * (1 + np.abs(ref_f).max())
         ev += 1
-        cdesc = {k: (v.tolist() if isinstance(v, np.ndarray) else v) for k, v in cfg.items() if k != "ext"}
-        wrapped = cfg["latlon"] and kr.int_drift_no > 0
+        cdesc = kc.describe(cfg)
+        mtag = kc.mnt_tag(cfg)
+        tags[mtag] = tags.get(mtag, 0) + 1
         if not (np.allclose(fld, ref_f, atol=tol) and np.allclose(var, ref_v, atol=tol)):
             viol.append({"key": "krige:direct-solve:" + cfg["variant"] + (":latlon" if cfg["latlon"] else ""),
-                         "what": "kriging field/variance differ from solving the kriging system directly", "case": cdesc,
+                         "what": "kriging field/variance differ from solving the kriging system directly "
+                                 "(data prepared as normalize(cond_val - trend) - mean; " + mtag + ")", "case": cdesc,
                          "got": [np.asarray(fld).tolist(), np.asarray(var).tolist()], "want": [ref_f.tolist(), ref_v.tolist()], "cond": cond})
             continue
+        # post-processing everywhere (not only at the data): trend + denormalize(mean + raw), independent formulas
+        ev += 1
+        want = kc.ref_post(cfg, ref_f, cfg["pos"])
+        if not (close_nan(pfld, kc.ref_post(cfg, fld, cfg["pos"]), 1e-10 * (1 + np.abs(np.nan_to_num(pfld))))
+                and close_nan(pfld, want, post_tol(cfg, ref_f, cfg["pos"], tol)) and np.array_equal(pvar, var)):
+            viol.append({"key": "krige:post-process:" + cfg["variant"], "what": "post-processed kriging field differs from trend + "
+                         "denormalize(mean + raw) of the directly solved system (" + mtag + ")", "case": cdesc,
+                         "got": np.asarray(pfld).tolist(), "want": want.tolist(), "cond": cond})
+            continue
+        # only_mean and get_mean against the directly solved mean system
+        if rng.rand() < 0.5:
+            with warnings.catch_warnings():
+                warnings.simplefilter("ignore")
+                mf = kc.call(kr, cfg, only_mean=True, post_process=False, store=False)
+                mp = kc.call(kr, cfg, only_mean=True, post_process=True, store=False)
+                gm, gm_raw = kr.get_mean(), kr.get_mean(post_process=False)
+            mref, _, _ = direct_solve(kr, cfg, cfg["pos"], only_mean=True)
+            ev += 1
+            if not (np.allclose(mf, mref, atol=tol) and close_nan(mp, kc.ref_post(cfg, mf, cfg["pos"]), 1e-10 * (1 + np.abs(np.nan_to_num(mp))))):
+                viol.append({"key": "krige:only-mean:" + cfg["variant"], "what": "only_mean field differs from the directly solved mean (" + mtag + ")",
+                             "case": cdesc, "got": np.asarray(mf).tolist(), "want": mref.tolist()})
+            const_mean = not kc.drift_callables(cfg) and cfg["ext"] is None and (cfg["mean"] is None or cfg["mean"][0] == "const")
+            if const_mean:
+                mu = 0.0 if cfg["mean"] is None else cfg["mean"][1]
+                want_gm = kc.ref_denormalize(cfg["norm"], np.array([mref[0] + mu]))[0]
+                okm = gm is not None and gm_raw is not None and abs(gm_raw - mref[0]) <= tol and \
+                    close_nan([gm], [want_gm], post_tol(dict(cfg, trend=None, mean=("const", mu) if mu else None), mref[:1], cfg["pos"][:, :1], tol))
+            else:
+                okm = gm is None
+            if not okm:
+                viol.append({"key": "krige:get-mean:" + cfg["variant"], "what": "get_mean differs from denormalize(estimated mean + mean) (" + mtag + ")",
+                             "case": cdesc, "got": [None if gm is None else float(gm), None if gm_raw is None else float(gm_raw)],
+                             "want": float(mref[0])})
         # metamorphic: chunk size, mesh type, target order, conditioning order, linearity
         m = cfg["pos"].shape[1]
         f2, v2 = kr(cfg["pos"], chunk_size=1, post_process=False, store=False, **({"ext_drift": cfg["ext"][1]} if cfg["ext"] else {}))
@@ -209,7 +409,7 @@ def search(ctx, deep=False):
         ev += 1
         if not (np.array_equal(f3, fld[perm]) and np.array_equal(v3, var[perm])):
             viol.append({"key": "krige:target-order", "what": "result depends on the order of target points", "case": cdesc})
-        n = kr.cond_no
+        n = cfg["cond_pos"].shape[1]
         cperm = rng.permutation(n)
         with warnings.catch_warnings():
             warnings.simplefilter("ignore")
@@ -222,24 +422,116 @@ def search(ctx, deep=False):
         ev += 1
         if not (np.allclose(f4, fld, atol=tol) and np.allclose(v4, var, atol=tol)):
             viol.append({"key": "krige:cond-order", "what": "result depends on the order of conditioning points", "case": cdesc})
-        # unbiased variants reproduce constants
-        if kr.unbiased and cfg["variant"] in ("Ordinary", "Universal", "ExtDrift"):
-            with warnings.catch_warnings():
-                warnings.simplefilter("ignore")
-                kr3 = kc.build(cfg, cond_val=np.full(n, 3.25))
-                f5 = kc.call(kr3, cfg, post_process=False, return_var=False, store=False)
-            ev += 1
-            if not np.allclose(f5, 3.25, atol=tol * 10):
-                viol.append({"key": "krige:constants:" + cfg["variant"], "what": "unbiased kriging does not reproduce a constant", "case": cdesc,
-                             "got": np.asarray(f5).tolist()})
+        # unbiased variants reproduce constants (of the prepared data: value = trend + denormalize(mean + c))
+        if kc.is_unbiased(cfg):
+            lo, hi = kc.gauss_range(cfg["norm"])
+            sc = kc.pos_scale(cfg)
+            cst = 0.4 if cfg["norm"] is not None else 3.25
+            y = cst + kc.eval_spec(cfg["mean"], cfg["cond_pos"], sc)
+            if np.all(y > lo) and np.all(y < hi):
+                cvc = kc.eval_spec(cfg["trend"], cfg["cond_pos"], sc) + kc.ref_denormalize(cfg["norm"], y)
+                with warnings.catch_warnings():
+                    warnings.simplefilter("ignore")
+                    kr3 = kc.build(cfg, cond_val=cvc)
+                    f5 = kc.call(kr3, cfg, post_process=False, return_var=False, store=False)
+                ev += 1
+                if not np.allclose(f5, cst, atol=tol * 10 + 1e-9):
+                    viol.append({"key": "krige:constants:" + cfg["variant"], "what": "unbiased kriging does not reproduce a constant", "case": cdesc,
+                                 "got": np.asarray(f5).tolist()})
         # structured = unstructured
         if cfg["fdim"] == 2 and not cfg["ext"] and not cfg["latlon"]:
             x, y = np.linspace(0, 5, 4), np.linspace(-1, 3, 3)
-            fs = kr((x, y), mesh_type="structured", return_var=False, post_process=False, store=False)
+            pp = bool(rng.rand() < 0.5)
+            fs = kr((x, y), mesh_type="structured", return_var=False, post_process=pp, store=False)
             g = np.array(np.meshgrid(x, y, indexing="ij")).reshape(2, -1)
-            fu = kr(g, return_var=False, post_process=False, store=False)
+            fu = kr(g, return_var=False, post_process=pp, store=False)
             ev += 1
-            if not np.array_equal(fs.reshape(-1), fu):
+            if not np.array_equal(fs.reshape(-1), fu, equal_nan=True):
                 viol.append({"key": "krige:mesh-type", "what": "structured and unstructured evaluation differ", "case": cdesc})
+    hv, hev, hsum = search_histories(ctx, rng, deep)
+    viol += hv
+    ev += hev
     return {"evaluations": ev, "violations": viol[:8],
-            "summary": "real Krige variants vs an independent numpy solve of the kriging system; chunk size, target order, conditioning order, constants, mesh type"}
+            "summary": "real Krige variants (+ generic class; identity and 6 non-identity normalizers x constant/callable mean x trend: "
+                       f"{len(tags)} combinations) vs an independent numpy solve of the kriging system on independently prepared data, raw and "
+                       "post-processed at every target; only_mean/get_mean; chunk size, target order, conditioning order, constants, mesh type; "
+                       + hsum}
+
+
+def search_histories(ctx, rng, deep=False, zero=False):
+    """random histories on one Krige object: after a set_condition (any argument form) every call equals a freshly
+    constructed object (bit-for-bit) and the independent solve with the current model and conditions"""
+    H = ctx.scale(80, 600) * (3 if deep else 1)
+    viol, ev, forms = [], 0, {}
+    for t in range(H):
+        cfg = kc.gen_config(rng)
+        zmode = str(rng.choice(["exact", "zero-err", "no-nugget"])) if zero else None
+        if zmode:
+            cfg = zero_cfg(cfg, zmode)
+        try:
+            for e in kc.run_history(rng, cfg, segments=int(rng.randint(2, 5)), zero_mode=zmode):
+                if not e["synced"]:
+                    continue
+                h, tp, kw, r1 = e["hist"], e["tp"], e["kw"], e["res"]
+                fr, mod = h.fresh()
+                if fr is None:
+                    continue
+                cur = h.cur
+                last = [l for l in h.log if l.startswith("set_condition")][-1:] or ["constructed"]
+                forms[last[0]] = forms.get(last[0], 0) + 1
+                case = {"history": list(h.log), "call": {k: (v.tolist() if isinstance(v, np.ndarray) else v) for k, v in kw.items()},
+                        "pos": tp.tolist(), "current": kc.describe(cur), "model": repr(h.kr.model)}
+                r2 = h.call(tp, kw, obj=fr)
+                ev += 1
+                if not same_result(r1, r2):
+                    viol.append({"key": "krige:history:fresh-object:" + cfg["variant"],
+                                 "what": "after " + last[0] + " a call differs from a freshly constructed object with the current model and conditions",
+                                 "case": case, "got": [None if x is None else np.asarray(x).tolist() for x in r1[1:]] if r1[0] == "ok" else list(r1),
+                                 "want": [None if x is None else np.asarray(x).tolist() for x in r2[1:]] if r2[0] == "ok" else list(r2)})
+                    break
+                if r1[0] != "ok":
+                    continue
+                ref = kc.solve_direct(cur, mod, tp, ext_t=kw.get("ext_drift"), only_mean=kw["only_mean"])
+                if ref["cond"] > 1e7:
+                    continue
+                tol = 1e-9 * max(ref["cond"], 1) * (1 + np.abs(ref["raw"]).max())
+                ev += 1
+                if kw["post_process"]:
+                    ok = close_nan(r1[1], kc.ref_post(cur, ref["raw"], tp), post_tol(cur, ref["raw"], tp, tol))
+                else:
+                    ok = np.allclose(r1[1], ref["raw"], atol=tol)
+                if r1[2] is not None:
+                    ok = ok and np.allclose(r1[2], ref["var"], atol=tol)
+                if not ok:
+                    viol.append({"key": "krige:history:direct-solve:" + cfg["variant"],
+                                 "what": "after " + last[0] + " a call differs from solving the kriging system of the current model and conditions",
+                                 "case": case, "got": [None if x is None else np.asarray(x).tolist() for x in r1[1:]],
+                                 "want": [ref["raw"].tolist(), ref["var"].tolist()], "cond": ref["cond"]})
+                    break
+                # C06: exact interpolation of the CURRENT data by the object with a history
+                if zero and e.get("sel") is not None and r1[2] is not None:
+                    want = cur["cond_val"][e["sel"]]
+                    dtol = data_tol(cur, ref["cond"], e["sel"])
+                    vexp = mod.nugget if zmode == "zero-err" else 0.0
+                    ev += 1
+                    if not (close_nan(r1[1], want, dtol) and np.all(np.abs(r1[2] - vexp) <= 1e-7 * mod.sill * max(1.0, ref["cond"] / 1e3))):
+                        viol.append({"key": f"krige:history:exactness:{cfg['variant']}:{zmode}",
+                                     "what": "after " + last[0] + " the kriged field at the conditioning points differs from the current data "
+                                             "(or the variance there is not the expected one)",
+                                     "case": case, "got": [np.asarray(r1[1]).tolist(), np.asarray(r1[2]).tolist()], "want": np.asarray(want).tolist(),
+                                     "cond": ref["cond"]})
+                        break
+                # get_mean of the object with a history
+                if rng.rand() < 0.3:
+                    with warnings.catch_warnings():
+                        warnings.simplefilter("ignore")
+                        g1, g2 = h.kr.get_mean(), fr.get_mean()
+                    ev += 1
+                    if not ((g1 is None and g2 is None) or (g1 is not None and g2 is not None and (g1 == g2 or (np.isnan(g1) and np.isnan(g2))))):
+                        viol.append({"key": "krige:history:get-mean:" + cfg["variant"], "what": "get_mean after " + last[0] + " differs from a fresh object",
+                                     "case": case, "got": None if g1 is None else float(g1), "want": None if g2 is None else float(g2)})
+                        break
+        except Exception as ex:
+            ctx.notes.append(f"history rejected: {type(ex).__name__}: {ex}")
+            continue
+    return viol[:6], ev, f"{H} operation histories (model edits, mean/normalizer/trend re-assignment, set_condition forms {sorted(forms)}) vs fresh objects and the direct solve"
